@@ -1,5 +1,6 @@
 import B6.Lemmas.RecordsFeatures
 import B6.Lemmas.RecordsTokenMap
+import B6.Lemmas.RecordsRaw
 /-!
 # C11 — every compact record kind round-trips through its codec
 
@@ -18,9 +19,12 @@ bit 63), every `int32` coordinate, every `uint16` namespace, empty lists.
 Domain restrictions that are part of the statement (and literally the driver's `inDomain` predicate):
 * mixed lists / mixed area polygons are sums: an element is a reference *or* a lat/lng (`canonical`) — the
   encoding writes only the half the flag bit selects (`mixed_needs_canonical_counterexample`);
-* `Members` / `Relation`: proved for member types point/path/area/relation (`Member.typeOk`, `…_partial`); the
-  full statements are false for the other `b6.FeatureType` values (`members_roundtrip_counterexample`): finding
-  `member-type-wide`, the type is OR-ed into `FeatureTypeBits = 2` bits of the role word.
+* `Members` / `Relation`: a member type that does not fit the `FeatureTypeBits = 2` bits of the role word is a
+  `Marshal` panic (fixes/C11-member-type-guard.patch; before it the type was OR-ed in silently:
+  `member_wide_type_counterexample`), so `marshal = some bs` already excludes it.
+
+Further down: reused receivers of the two sum-like records (`…_reused_receiver*`) and the behaviour of the leaf
+decoders on truncated input (`…_truncated`, outside the property's statement).
 -/
 namespace B6.Props.C11
 open B6.Model.Records B6.Model.Varint
@@ -58,10 +62,11 @@ theorem latlng_marshal_total (ll : LatLng) : ll.marshal = some ll.enc := by
 theorem int_value_ok_iff (v : BitVec 64) : (Value.int v).ok = true ↔ v.toNat < 2 ^ 62 := by
   simp [Value.ok, valueTypeOk_iff]
 
-/-- a member marshals iff its role is in `[0, 2^62)`; otherwise "Can't encode role" -/
-theorem member_ok_iff (m : Member) : m.ok = true ↔ m.role.toNat < 2 ^ 62 := by
+/-- a member marshals iff its role is in `[0, 2^62)` ("Can't encode role") and its type is point, path, area or
+relation ("Can't encode member type") -/
+theorem member_fits_iff (m : Member) : m.fits = true ↔ m.role.toNat < 2 ^ 62 ∧ m.type.toNat < 4 := by
   have := m.role.isLt
-  simp only [Member.ok, beq_iff_eq]
+  simp only [Member.fits, Member.ok, Member.typeOk, Bool.and_eq_true, beq_iff_eq, decide_eq_true_eq]
   omega
 
 /-! ## the round-trip theorems -/
@@ -129,21 +134,16 @@ def tagsExample : List Tag :=
    ⟨4#64, .refs [⟨8193#16, 9#64⟩, ⟨3#16, 1#64⟩]⟩, ⟨5#64, .mixed mixedExample⟩, ⟨6#64, .refs []⟩]
 example : Tags.canonical tagsExample = true ∧ (Tags.marshal 8193#16 tagsExample).isSome = true := by decide
 
-/-- what the property demands of `Members` (for *every* member value) — false, see `members_roundtrip_counterexample` -/
-def members_roundtrip_statement : Prop :=
-  ∀ (p : BitVec 16) (ms : List Member) (bs : Bytes), Members.marshal p ms = some bs →
-    ∀ rest : Bytes, Members.dec p (bs ++ rest) = some (ms, bs.length)
-
-/-- the part that holds: member types point/path/area/relation (`Member.typeOk`, the driver's class predicate) -/
-theorem members_roundtrip_partial (p : BitVec 16) (ms : List Member) (ht : ∀ m ∈ ms, m.typeOk = true)
+theorem members_roundtrip (p : BitVec 16) (ms : List Member)
     (bs : Bytes) (h : Members.marshal p ms = some bs) (rest : Bytes) :
     Members.dec p (bs ++ rest) = some (ms, bs.length) := by
   obtain ⟨hok, rfl⟩ := of_marshal h
-  exact rt_members p ms hok ht rest
+  exact rt_members p ms hok rest
 
 def membersExample : List Member :=
   [⟨0#64, 17#64, ⟨8193#16, 5#64⟩⟩, ⟨3#64, (2 ^ 62 - 1 : Nat), ⟨24579#16, (2 ^ 64 - 1 : Nat)⟩⟩, ⟨2#64, 0#64, ⟨0#16, 0#64⟩⟩]
-example : (∀ m ∈ membersExample, m.typeOk = true) ∧ (Members.marshal 8193#16 membersExample).isSome = true := by decide
+example : (Members.marshal 8193#16 membersExample).isSome = true ∧
+    Members.marshal 8193#16 [⟨5#64, 4#64, ⟨0#16, 0#64⟩⟩] = none := by decide
 
 theorem delta_ints_roundtrip (vs : List (BitVec 64)) (rest : Bytes) :
     DeltaInts.dec vs.length (DeltaInts.enc vs ++ rest) = some (vs, (DeltaInts.enc vs).length) :=
@@ -237,13 +237,9 @@ theorem area_roundtrip (n : Namespaces) (a : Area) (hc : Tags.canonical a.tags =
 def areaExample : Area := ⟨tagsExample, .mixed agmExample, [⟨tnRelation nssExample, 51#64⟩, ⟨tnRelation nssExample, 60#64⟩, ⟨tnPath nssExample, 3#64⟩]⟩
 example : (areaExample.marshal nssExample).isSome = true := by decide
 
-def relation_roundtrip_statement : Prop :=
-  ∀ (t : BitVec 64) (n : Namespaces) (r : Relation), Tags.canonical r.tags = true → ∀ bs : Bytes, r.marshal t n = some bs →
-    ∀ rest : Bytes, Relation.dec t n (bs ++ rest) = some (r, bs.length)
-
-/-- relations with the member list in every primary namespace `t` (point, path, area, relation); member types < 4 -/
-theorem relation_roundtrip_partial (t : BitVec 64) (n : Namespaces) (r : Relation) (hc : Tags.canonical r.tags = true)
-    (ht : ∀ m ∈ r.members, m.typeOk = true) (bs : Bytes) (h : r.marshal t n = some bs) (rest : Bytes) :
+/-- relations with the member list in every primary namespace `t` (point, path, area, relation) -/
+theorem relation_roundtrip (t : BitVec 64) (n : Namespaces) (r : Relation) (hc : Tags.canonical r.tags = true)
+    (bs : Bytes) (h : r.marshal t n = some bs) (rest : Bytes) :
     Relation.dec t n (bs ++ rest) = some (r, bs.length) := by
   unfold Relation.marshal at h
   unfold Relation.dec
@@ -252,7 +248,7 @@ theorem relation_roundtrip_partial (t : BitVec 64) (n : Namespaces) (r : Relatio
   | some mp =>
     simp only [hm] at h ⊢
     obtain ⟨hok, rfl⟩ := of_marshal h
-    exact rt_relationWith mp n r hok hc ht rest
+    exact rt_relationWith mp n r hok hc rest
 
 def relationExample : Relation := ⟨[⟨1#64, .int 5#64⟩], membersExample, [⟨tnRelation nssExample, 5#64⟩]⟩
 example : (Relation.marshal 0#64 nssExample relationExample).isSome = true ∧ (Relation.marshal 1#64 nssExample relationExample).isSome = true ∧
@@ -361,18 +357,102 @@ theorem area_relations_primary_counterexample :
 theorem mixed_needs_canonical_counterexample :
     RefLLs.dec 8193#16 (RefLLs.enc 8193#16 [⟨⟨8193#16, 5#64⟩, ⟨1#32, 2#32⟩⟩]) = some ([⟨⟨8193#16, 5#64⟩, LatLng.zero⟩], 4) := by decide
 
-/-- finding `member-type-wide`: a member of type 5 (collection) marshals without a panic and comes back as type 1
-(path) with role 5 instead of 4 — the type is OR-ed into a 2-bit field of the role word. -/
-theorem members_roundtrip_counterexample : ¬ members_roundtrip_statement := by
-  intro h
-  have := h 0#16 [⟨5#64, 4#64, ⟨0#16, 0#64⟩⟩] [1, 21, 0] (by decide) []
-  revert this
-  decide
+/-- the code before fixes/C11-member-type-guard.patch (`Members.enc` without the `ok` test): a member of type 5
+(collection) went out without a panic and came back as type 1 (path) with role 5 instead of 4 — the type was
+OR-ed into a 2-bit field of the role word. -/
+theorem member_wide_type_counterexample :
+    (Members.dec 0#16 (Members.enc 0#16 [⟨5#64, 4#64, ⟨0#16, 0#64⟩⟩])).map (·.1) = some [⟨1#64, 5#64, ⟨0#16, 0#64⟩⟩] := by decide
 
-theorem relation_roundtrip_counterexample : ¬ relation_roundtrip_statement := by
-  intro h
-  have := h 3#64 ⟨1#16, 2#16, 2#16, 3#16⟩ ⟨[], [⟨5#64, 4#64, ⟨0#16, 0#64⟩⟩], []⟩ (by decide) [0, 1, 21, 1, 0, 2] (by decide) []
-  revert this
-  decide
+/-! ## reused receivers of the two sum-like records
+
+Every other `Unmarshal` overwrites all fields of the slots it reuses (the harness decodes into used receivers
+for those).  These two fill in only the half the flag bit selects. -/
+
+/-- marshal `g`, unmarshal into a receiver that holds `old`: `overlay old g` comes back (every `g`, every
+`old`), consumption exact -/
+theorem references_and_latlngs_reused_receiver (old : List RefLL) (p : BitVec 16) (g : List RefLL) (bs : Bytes)
+    (h : RefLLs.marshal p g = some bs) (rest : Bytes) :
+    RefLLs.decInto old p (bs ++ rest) = some (RefLLs.overlay old g, bs.length) := by
+  obtain ⟨hok, rfl⟩ := of_marshal h
+  exact rt_refLLsInto old p g hok rest
+
+/-- the exact condition for the reuse to be invisible: under every element of `g` the stale half equals the
+half `g` has there (`compatible`, executable; the driver's predicate for `mixed!` ops) -/
+theorem references_and_latlngs_reused_receiver_iff (old g : List RefLL) :
+    RefLLs.overlay old g = g ↔ RefLLs.compatible old g = true :=
+  refLLs_overlay_eq_iff g old
+
+/-- it holds for a fresh receiver (the only use in the code base: `inferValueType` allocates), where the model is
+the plain decoder … -/
+theorem references_and_latlngs_fresh_receiver (p : BitVec 16) (g : List RefLL) (hc : ∀ x ∈ g, x.canonical = true) :
+    RefLLs.decInto [] p = RefLLs.dec p ∧ RefLLs.compatible [] g = true :=
+  ⟨refLLs_decInto_nil p, refLLs_compatible_fresh g hc⟩
+
+/-- … and for a receiver that last held a canonical value with the same reference / lat-lng pattern -/
+theorem references_and_latlngs_same_shape (old g : List RefLL) (hg : ∀ x ∈ g, x.canonical = true)
+    (ho : ∀ x ∈ old, x.canonical = true) (hz : ∀ pr ∈ old.zip g, pr.1.isRef = pr.2.isRef) :
+    RefLLs.compatible old g = true :=
+  refLLs_compatible_same_shape g old hg ho hz
+
+/-- otherwise not: a lat/lng decoded into a slot that held a reference keeps the reference (and would be
+marshalled as that reference next time) -/
+theorem references_and_latlngs_stale_receiver_counterexample :
+    RefLLs.decInto [⟨⟨8193#16, 7#64⟩, LatLng.zero⟩] 8193#16 (RefLLs.enc 8193#16 [⟨Reference.invalid, ⟨1#32, 2#32⟩⟩]) =
+      some ([⟨⟨8193#16, 7#64⟩, ⟨1#32, 2#32⟩⟩], 5) := by decide
+
+theorem area_geometry_mixed_reused_receiver (old : List PolygonMixed) (p : BitVec 16) (ps : List PolygonMixed)
+    (bs : Bytes) (h : AreaGeomMixed.marshal p ps = some bs) (rest : Bytes) :
+    AreaGeomMixed.decInto old p (bs ++ rest) = some (AreaGeomMixed.overlay old ps, bs.length) := by
+  obtain ⟨hok, rfl⟩ := of_marshal h
+  exact rt_areaGeomMixedInto old p ps hok rest
+
+theorem area_geometry_mixed_reused_receiver_iff (old ps : List PolygonMixed) :
+    AreaGeomMixed.overlay old ps = ps ↔ AreaGeomMixed.compatible old ps = true :=
+  areaGeomMixed_overlay_eq_iff ps old
+
+/-- a lat/lng polygon decoded into a slot that held path references keeps the paths: `PathIDs(i)` then answers
+with the stale paths -/
+theorem area_geometry_mixed_stale_receiver_counterexample :
+    (AreaGeomMixed.decInto [⟨[⟨8193#16, 7#64⟩], PolygonLL.zero⟩] 8193#16 (AreaGeomMixed.enc 8193#16 [⟨[], pllExample⟩])).map (·.1) =
+      some [⟨[⟨8193#16, 7#64⟩], pllExample⟩] := by decide
+
+/-! ## leaf decoders on truncated input (outside the property: what `Unmarshal` does with a proper prefix)
+
+`binary.Uvarint` answers `(0, 0)` on a short buffer and the code does not look at the count: missing varints read
+as 0 and consume nothing — no panic, no error; fixed-width fields and string bodies panic (slice bounds). -/
+
+theorem reference_truncated (p : BitVec 16) (r : Reference) (k : Nat) (hk : k < (Reference.enc p r).length) :
+    Reference.decRaw p ((Reference.enc p r).take k) =
+      if (r.tn ≠ p ∨ 2 ^ 63 ≤ r.value.toNat) ∧ (putUvarint (r.tn.toNat * 2 + 1)).length ≤ k
+      then .ok ⟨r.tn, 0#64⟩ (putUvarint (r.tn.toNat * 2 + 1)).length else .ok ⟨p, 0#64⟩ 0 :=
+  reference_truncated_raw p r k hk
+
+example : prefixResults (Reference.decRaw 8193#16) (Reference.enc 8193#16 ⟨24579#16, 300#64⟩) =
+    [.ok ⟨8193#16, 0#64⟩ 0, .ok ⟨8193#16, 0#64⟩ 0, .ok ⟨8193#16, 0#64⟩ 0, .ok ⟨24579#16, 0#64⟩ 3, .ok ⟨24579#16, 0#64⟩ 3] := by decide
+
+theorem int_truncated (v : BitVec 64) (k : Nat) (hk : k < ((Value.int v).enc 0#16).length) :
+    Int.decRaw (((Value.int v).enc 0#16).take k) = .ok 0#64 0 :=
+  int_truncated_raw _ k hk
+
+theorem string_truncated (s : Bytes) (hs : Str.ok s = true) (k : Nat) (hk : k < (Str.enc s).length) :
+    Str.decRaw ((Str.enc s).take k) = if k < (putUvarint s.length).length then .ok [] 0 else .panic :=
+  string_truncated_raw s (by simpa [Str.ok] using hs) k hk
+
+theorem namespace_index_truncated (x : NamespaceIndex) (k : Nat) (hk : k < x.enc.length) :
+    NamespaceIndex.decRaw (x.enc.take k) =
+      if (putUvarint x.tn.toNat).length ≤ k then .ok ⟨x.tn, 0#64⟩ (putUvarint x.tn.toNat).length else .ok ⟨0#16, 0#64⟩ 0 :=
+  namespaceIndex_truncated_raw x k hk
+
+theorem namespaces_truncated (n : Namespaces) (k : Nat) (hk : k < 8) : Namespaces.decRaw (n.enc.take k) = .panic :=
+  namespaces_truncated_raw n k hk
+
+theorem latlng_truncated (ll : LatLng) (k : Nat) (hk : k < ll.enc.length) :
+    LatLng.decRaw (ll.enc.take k) = .panic ∨
+      (4 ≤ k ∧ k < (putUvarint (encodeValueType 1 ll.latWord)).length ∧
+        LatLng.decRaw (ll.enc.take k) = .ok ⟨0#32, BitVec.ofNat 32 (leValue (ll.enc.take 4))⟩ 4) :=
+  latlng_truncated_raw ll k hk
+
+/-- the second case happens: a latitude whose varint takes 5 bytes, cut after 4 -/
+example : LatLng.decRaw ((LatLng.enc ⟨BitVec.ofInt 32 (-2147483648), 5#32⟩).take 4) = .ok ⟨0#32, 4294967293#32⟩ 4 := by decide
 
 end B6.Props.C11
